@@ -183,6 +183,17 @@ func c11Rules(c *Ctx) {
 			}
 			return false
 		}
+		// the index is consumed for every batch, control batches included: the walk precedes the removal on an
+		// abort marker and the aborted lookup (otherwise an entry whose marker opens the response is activated
+		// after its marker and never removed)
+		if inner != nil && inner != l {
+			walk := func(it Item) bool { return it.In != nil && it.In == inner.Head.Instrs[0] }
+			for _, d := range dels {
+				it, pth := reg.MustPrecede(walk, IsItem(d))
+				c.Check(it.IsZero(), "C11.marker", fn, "activate-before-marker", d.Instr(), "the aborted-transaction index is walked up to the batch before an abort marker removes the producer",
+					"an abort marker can remove its producer from the aborted set before the index entry of that transaction was activated (the walk is skipped for control batches): the entry is activated later and hides the producer's following committed records", pth)
+			}
+		}
 		esc, path2 := r2.From(s.After()).Escape(pop)
 		c.Check(!esc, "C11.marker", fn, "insert-pops", mu, "each activated index entry is popped", "an activated index entry is not popped: it is re-activated after its abort marker", path2)
 		// head consumption: the loop that pops the head must examine the head — indexing the shrinking
